@@ -398,8 +398,16 @@ def compare_views(r, v0, v1, ctx):
     if v0["attackers"] != v1["attackers"]:
         ok = False
         ids0 = [t[0] for t in v0["attackers"]]
-        r.check("C07.attackers", False, FN_LOAD, "attackers %s became %s (%s)" % (v0["attackers"], v1["attackers"], ctx),
-                "two-attackers-one-id" if len(set(ids0)) < len(ids0) else "differ")
+        sig = "differ"
+        if len(set(ids0)) < len(ids0):
+            # tell the known finding (the history itself ASKS for an id that is in use / adds one attachment twice; observed at
+            # the add_attacker call on the real model) from ids that collide although nobody asked for a duplicate
+            dup = {i for i in ids0 if ids0.count(i) > 1}
+            events = getattr(r, "id_events", [])
+            asked = {i for (_, i) in events}
+            cause = sorted(c_ for (c_, i) in events if i in dup)
+            sig = "two-attackers-one-id:" + (cause[0] if dup <= asked and cause else "ids-handed-out-by-the-model-collide")
+        r.check("C07.attackers", False, FN_LOAD, "attackers %s became %s (%s)" % (v0["attackers"], v1["attackers"], ctx), sig)
     r.clauses.setdefault("C07.attackers", True)
     return ok
 
@@ -432,6 +440,7 @@ def run_api(recipe, r, tmp):
     set_named_defenses(S, base["lang"], recipe.get("defs_named", {}))
     for c, ex in recipe["aextras"].items(): S.cands[int(c)].extras = ex
     S.build(steps_by_name(base, recipe["ops"]))
+    r.id_events = list(S.id_events)
     m = S.model
     for k, ex in recipe["lextras"].items():
         inmodel = [h for h in S.by_shape.get(int(k), []) if any(x is S.links[h] for x in m.associations)]
@@ -583,6 +592,7 @@ def run_seq(recipe, r, tmp):
     try:
         for k, st in enumerate(recipe["stages"]):
             S.build(steps_by_name(base, st.get("ops", [])))
+            r.id_events = list(S.id_events)
             set_named_defenses(S, lang, st.get("defs_named", {}))
             for c, ex in st.get("aextras", {}).items(): S.cands[int(c)].extras = ex
             v = L.full_view(m, lang)
@@ -609,7 +619,7 @@ def run_seq(recipe, r, tmp):
                 r.check("C07.associations", False, FN_LOAD, "loaded model cannot be read: %s %s (%s)" % (L.exc_name(e), str(e)[:100], ctx),
                         "loaded-unreadable:" + L.exc_name(e))
                 break
-            sub = CaseResult()
+            sub = CaseResult(); sub.id_events = r.id_events
             if not compare_views(sub, v, w, ctx):
                 # does the result depend on the history of the path rather than on the bytes of the file? the same bytes at
                 # a path never used before are loaded for comparison
@@ -628,41 +638,7 @@ def run_seq(recipe, r, tmp):
     return views
 
 
-def _explicit_id_in_use(recipe):
-    """does the recipe itself ask for an attacker id that a live attacker already has (per the intended id discipline: automatic
-    ids come from a counter that is above every id handed out so far)?  Tells the known finding (an explicit duplicate id is
-    accepted) from ids that collide although nobody asked for a duplicate."""
-    ops = list(recipe.get("ops") or [])
-    for st in recipe.get("stages") or []:
-        ops += list(st.get("ops") or [])
-    next_id, asset_ids, live = 0, set(), {}
-    for op in ops:
-        if op[0] == "add_asset":
-            nid = op[2] if op[2] is not None else next_id
-            if nid in asset_ids:
-                continue
-            asset_ids.add(nid); next_id = max(nid + 1, next_id)
-        elif op[0] == "add_attacker":
-            aid = op[2] if op[2] is not None else next_id
-            if op[1] in live:
-                return "same-attachment-added-twice"
-            if op[2] is not None and aid in live.values():
-                return "explicit-id-already-in-use"
-            live[op[1]] = aid; next_id = max(aid + 1, next_id)
-        elif op[0] == "remove_attacker":
-            live.pop(op[1], None)
-    return None
-
-
 def run_case(recipe):
-    r = _run_case(recipe)
-    if any(f[3] == "two-attackers-one-id" for f in r.failures):
-        tag = _explicit_id_in_use(recipe) or "ids-handed-out-by-the-model-collide"
-        r.failures = [(c_, fn, msg, (sig + ":" + tag) if sig == "two-attackers-one-id" else sig) for (c_, fn, msg, sig) in r.failures]
-    return r
-
-
-def _run_case(recipe):
     r = CaseResult()
     tmp = tempfile.mkdtemp(prefix="c07_")
     try:
